@@ -109,7 +109,7 @@ fn middleware_body(only: IdK) -> (u8, bool) {
                         assert!(c.same_site == cc.same_site, "SameSite differs from the configured one");
                         assert!(c.secure == if cc.secure { Some(true) } else { None }, "Secure differs from the configured one");
                         assert!(c.http_only == if cc.http_only { Some(true) } else { None }, "HttpOnly differs from the configured one");
-                        let want_age = if cc.kind == SessionCookieKind::Persistent { Some(pavex::time::SignedDuration(FRESH_TTL as i64)) } else { None };
+                        let want_age = if cc.kind == SessionCookieKind::Persistent { Some(pavex::time::SignedDuration::from_secs(FRESH_TTL as i64)) } else { None };
                         assert!(c.max_age == want_age, "max-age is not the state ttl of a persistent cookie / not absent for a session cookie");
                         assert!(!m.invalidated, "an invalidated session got a live cookie");
                     } else {
